@@ -306,7 +306,11 @@ def run_shard(params, R):
     for a in first_bytes:
         mon.run_case([bytes([a])], "len1")
         mon.run_case([b"", bytes([a]), b""], "len1")
-        for b in range(256):
+        if params["flavour"] == "asan" and tier == "quick" and a < 0x80:
+            second = (0x00, 0x41, 0x7f, 0x80, 0xbf, 0xc2, 0xe0, 0xed, 0xf0, 0xf4, 0xff)   # sanitizer build: ASCII leads sampled in quick
+        else:
+            second = range(256)
+        for b in second:
             s = bytes([a, b])
             for ch in all_chunkings(s):
                 mon.run_case(ch, "len2")
